@@ -240,12 +240,42 @@ def _worker(a):
             "nontrivial": stats["client_lines"] > 0, "sample": [l[:200] for l in lines[:25]] + ["..."] + [l[:200] for l in out_lines[:25]]}
 
 
+def _old_requests_worker(a):
+    """Requests that have been pending for 10 s or more are listed by `? stats` (one S line each): a few clients of every kind are
+    left pending, the daemon idles 10.6 s, then stats are asked for.  Every line must be a valid message."""
+    b, seed = a["build"], a["seed"]
+    rng = random.Random(seed)
+    cfg = proto.Config([("login.svc", "login"), ("drone.svc", "dronecheck")], timeout=None)
+    s = proto.Session(b, cfg, leaks=False)
+    try:
+        for k, cid in enumerate([5, 70000, 2147483647, 9][:a["n"]]):
+            s.do({"t": "announce", "id": cid, "ip": rng.choice(["192.0.2.1", "2001:db8::1", "0::1"]), "port": 1000 + k})
+            if k % 2:
+                s.do({"t": "password", "id": cid, "text": "+! acct pw"})
+            if k % 3 == 0:
+                s.do({"t": "host", "id": cid, "name": "h.example"})
+        s.do({"t": "stats"})
+        time.sleep(10.6)
+        out = s.do({"t": "stats"})
+        s.finish()
+    except Exception:
+        s.kill()
+        raise
+    r = prun.post(s, b, cfg, PROPS, seed, do_shrink=False)
+    r["stats"]["old_request_lines"] = sum(1 for l in (out or []) if " sec old, " in l)
+    return r
+
+
 def run(chk, tier, scale=1.0):
     b = prun.build_daemon("c09-" + tier)
     # a quarter of the histories run on an unsanitized build: there a memory error does not abort the daemon but
     # shows as whatever it writes to the channel, which is what this property is about
     import build as buildmod
     bplain = buildmod.build_daemon(buildmod.fresh_dir("c09p-" + tier), "plain")
+    # the 10.6 s idle run(s) go on in the background while everything else runs
+    from concurrent.futures import ThreadPoolExecutor
+    old_pool = ThreadPoolExecutor(4)
+    old_futs = [old_pool.submit(_old_requests_worker, dict(build=b, seed=chk.seed * 7 + k, n=4)) for k in range(1 if tier == "quick" else 4)]
     n = int((320 if tier == "quick" else 6000) * scale)
     jobs = []
     allpat = list(range(256))
@@ -271,6 +301,8 @@ def run(chk, tier, scale=1.0):
     hj = pcommon.hist_jobs(b, int((240 if tier == "quick" else 6000) * scale), chk.seed, PROPS, tag="c09h", vary_addr=0.85,
                            opts={"weights": {"reannounce": 8, "disconnect": 5, "registered": 3, "reply": 22, "timeout": 4}})
     hres = vcommon.pmap(prun.hist_worker, hj, chunksize=4)
+    prun.fold(chk, "C09", [f.result() for f in old_futs])
+    old_pool.shutdown()
     prun.fold(chk, "C09", hres)
     chk.count("lockstep_histories", len(hres))
     chk.rule = ("batch histories (12-30 clients, ids up to 2^31-1) on the UNHOOKED channel: announced addresses cover the 256 zero/non-zero group patterns with 1-4 digit groups in "
@@ -280,6 +312,7 @@ def run(chk, tier, scale=1.0):
                 "production of the message grammar; client lines must carry an announced id, an address Python's ipaddress reads as the announced value, and the announced port; "
                 "distinct = input stream; non-trivial = at least one client-directed line; plus lock-step random histories over 3-5 heavily re-used ids whose "
                 "re-announcements (also of a still pending id) carry a different address / port: every client line must carry those of the current announcement")
+    chk.require("old_request_lines", 3)
     chk.require("client_lines", 5000 * min(1.0, scale))
     chk.require("verdict_lines", 1000 * min(1.0, scale))
     chk.require("reloads", 50 * min(1.0, scale))
